@@ -921,11 +921,14 @@ class SchemaValidator:
                     raise NotImplementedError(
                         "comparison validation not implemented for type: " + field_type
                     )
-                elif field_type == "LIST":
-                    if self._validate_string_list("", right) == []:
+                elif field_type == "LIST" and len(operand_object["value"]) > 0:
+                    # an empty list literal has no item type of its own
+                    if self._validate_string_list("", operand_object["value"]) == []:
                         return "STRING_LIST"
-                    if self._validate_numeric_list("", right) == []:
+                    if self._validate_numeric_list("", operand_object["value"]) == []:
                         return "NUMERIC_LIST"
+                    if self._validate_boolean_list("", operand_object["value"]) == []:
+                        return "BOOLEAN_LIST"
 
                 return field_type
 
